@@ -73,7 +73,13 @@ def m_serialize_serval(ex, a, m):
             return _st(ex, 'SerializeTupleVariant', 'TupleVariantState', 'end', [c.v])
         if k == 'map':
             c = Cell(unwrap(_ser(ex, ser, 'serialize_map', [some(Int(len(t[1]), 'usize'))])))
+            # serde's impls for maps and #[serde(flatten)] call serialize_entry, whose provided body is serialize_key + serialize_value; hand-written
+            # impls may call the two halves themselves. When the crate overrides serialize_entry both call styles are explored.
+            ent = ex.prog.by_key.get(('SerializeMap', 'MapState', 'serialize_entry'))
+            style = 'halves' if ent is None else choose_from(ex, 'mapstyle', ['entry', 'halves'])
+            ex.u_mapstyle = style
             for kk, vv in t[1]:
+                if style == 'entry': unwrap(ex.run_fn(ent, [Ptr(c), Ptr(Cell(kk), 'ref'), Ptr(Cell(vv), 'ref')])); continue
                 unwrap(_st(ex, 'SerializeMap', 'MapState', 'serialize_key', [Ptr(c), Ptr(Cell(kk), 'ref')]))
                 unwrap(_st(ex, 'SerializeMap', 'MapState', 'serialize_value', [Ptr(c), Ptr(Cell(vv), 'ref')]))
             return _st(ex, 'SerializeMap', 'MapState', 'end', [c.v])
@@ -140,7 +146,7 @@ def dm_json(ex, v, model):
     if k in ('seq', 'tuple'): return [k, [dm_json(ex, x, model) for x in t[1]]]
     if k == 'tuple_struct': return [k, t[1], [dm_json(ex, x, model) for x in t[2]]]
     if k == 'tuple_variant': return [k, t[1], t[2], t[3], [dm_json(ex, x, model) for x in t[4]]]
-    if k == 'map': return [k, [[dm_json(ex, kk, model), dm_json(ex, vv, model)] for kk, vv in t[1]]]
+    if k == 'map': return ['map_entry' if getattr(ex, 'u_mapstyle', None) == 'entry' else k, [[dm_json(ex, kk, model), dm_json(ex, vv, model)] for kk, vv in t[1]]]
     if k == 'struct': return [k, t[1], [[kk, dm_json(ex, vv, model)] for kk, vv in t[2]]]
     if k == 'struct_variant': return [k, t[1], t[2], t[3], [[kk, dm_json(ex, vv, model)] for kk, vv in t[4]]]
 def has_err(x):
@@ -178,6 +184,7 @@ def gen(ex, depth, kinds=None):
     if k == 'tuple_struct': return SerVal(k, 'T', [sub() for _ in range(n)])
     if k == 'tuple_variant': return SerVal(k, 'E', 2, 'C', [sub() for _ in range(n)])
     if k == 'map':
+        if n == 2: n = choose_from(ex, 'mapnum', [2, 3])          # three entries: the third repeats the first key (the last one wins in serde_json)
         keys = [SerVal('str', 'k'), SerVal('char', Int(ord('c'), 'char')), SerVal('str', 'k')][:n] if n else []
         return SerVal(k, [(kk, sub()) for kk in keys])
     if k == 'struct': return SerVal(k, 'S', [(nm, sub()) for nm in ['x', 'y'][:n]])
